@@ -55,7 +55,9 @@ func observeReg(c *ucfg.Config) interface{} {
 	}
 	keys := append([]string{}, c.FlattenedKeys(ucfg.PathSep("."))...)
 	sort.Strings(keys)
-	return J{"fp": fpJSON(ucfg.VerifFingerprint(c)), "path": c.Path("."), "parent": ptrID(c.Parent()), "keys": keys,
+	keys0 := append([]string{}, c.FlattenedKeys()...) // the default separator is "."
+	sort.Strings(keys0)
+	return J{"fp": fpJSON(ucfg.VerifFingerprint(c)), "path": c.Path("."), "parent": ptrID(c.Parent()), "keys": keys, "keys0": keys0,
 		"fields": sortedStrings(c.GetFields()), "isDict": c.IsDict(), "isArray": c.IsArray()}
 }
 
